@@ -191,6 +191,99 @@ PROCESS_PROFILE = {
     ],
 }
 # ---- end Engine.process
+# ---- Consequent.modify (C07): begin
+PROP = "Py.Cons.Proposition"
+CONS_EXT = [
+    ("self.conclusions", "conclusions", f"List {PROP}", True),
+    ("not _0.variable", "(!(Py.Cons.varTruth {0}.var))", "Bool", True, [PROP]),      # Variable.__len__
+    ("_0.variable", "{0}.var", "Option Py.Cons.Var", True, [PROP]),
+    ("_0.enabled", "{0}.enabled", "Bool", True, ["Py.Cons.Var"]),
+    ("_0.hedges", "{0}.hedges", "List (X Rat → X Rat)", True, [PROP]),
+    ("_0.hedge(_1)", "({0} {1})", "X Rat", True, ["X Rat → X Rat", "X Rat"]),
+    ("_0.term", "{0}.term", "Option String", True, [PROP]),
+    ("Activated(_0, _1, implication)", "(Py.Cons.mkActivated san {0} {1} impl)", "Py.Cons.ATerm", True, ["String", "X Rat"]),
+    ("isinstance(_0, OutputVariable)", "{0}.isOutput", "Bool", True, ["Py.Cons.Var"]),
+]
+CONS_STMT = [
+    ("proposition.variable.fuzzy.terms.append(activated_term)",
+     "(Py.deref σ.proposition.var >>= fun v => .ok {{ σ with out := σ.out ++ [Py.Cons.contributionOf v σ.activated_term] }})", False),
+]
+CONS_PROFILES = [
+    {
+        "name": "Consequent_modify", "module": "fuzzylite.rule", "object": "Consequent.modify", "file": "CodeConsequent",
+        "params": [("san", "X Rat → X Rat"), ("impl", "String"), ("d", "X Rat"), ("conclusions", f"List {PROP}")],
+        "init": {"activation_degree": "d"},
+        "locals": {"activation_degree": "X Rat", "proposition": PROP, "hedge": "X Rat → X Rat", "activated_term": "Py.Cons.ATerm",
+                   "out": "List (Spec.Consequent.Act (X Rat) String)"},
+        "externals": CONS_EXT, "stmt_externals": CONS_STMT,
+    },
+]
+# ---- Consequent.modify (C07): end
+
+# ---- Aggregated.grouped_terms, WeightedAverage.defuzzify, WeightedSum.defuzzify (C10): begin
+W_ACT = "Op.Weighted.Act String Rat"
+W_TERM = "Op.Weighted.WTerm String Rat"
+W_TYPE = "Op.Weighted.WType"
+W_AGGR = "Py.W.Aggregated"
+W_NORM = "X Rat → X Rat → X Rat"
+W_DICT = f"List (String × {W_ACT})"
+W_COMMON_EXT = [
+    ("_0.term", "{0}.1", W_TERM, True, [W_ACT]),
+    ("_0.degree", "{0}.2", "X Rat", True, [W_ACT]),
+]
+GROUPED_EXT = [
+    ("self.aggregation", "agg", f"Option ({W_NORM})", True),
+    ("UnboundedSum()", "Gen.Norm.UnboundedSum", W_NORM, True),
+    ("{}", "[]", W_DICT, True),
+    ("self.terms", "terms", f"List ({W_ACT})", True),
+    ("_0.name", "{0}.name", "String", True, [W_TERM]),
+    ("_0 not in groups", "(!(Py.Dict.mem σ.groups {0}))", "Bool", True, ["String"]),
+    ("Activated(_0, _1, implication=None)", "({0}, Op.Weighted.setDegree {1})", W_ACT, True, [W_TERM, "X Rat"]),
+    # `aggregated_term` is a reference to an object stored in `groups`: its key
+    ("aggregated_term.degree", "(Py.Dict.get σ.groups σ.aggregated_term >>= fun g => .ok g.2)", "X Rat", False),
+    ("aggregation.compute(_0, _1)", "(σ.aggregation {0} {1})", "X Rat", True, ["X Rat", "X Rat"]),
+] + W_COMMON_EXT
+GROUPED_STMT = [
+    ("groups[_0] = _1", "{{ σ with groups := Py.Dict.set σ.groups {0} {1} }}", True, ["String", W_ACT]),
+    ("aggregated_term = groups[_0]", "(Py.Dict.get σ.groups {0} >>= fun _ => .ok {{ σ with aggregated_term := {0} }})", False, ["String"]),
+    ("aggregated_term.degree = _0",
+     "(Py.Dict.modify σ.groups σ.aggregated_term (fun g => (g.1, Op.Weighted.setDegree {0})) >>= fun gs => .ok {{ σ with groups := gs }})",
+     False, ["X Rat"]),
+]
+DEFUZZ_EXT = [
+    ("isinstance(_0, Aggregated)", "({0}).isSome", "Bool", True, [f"Option {W_AGGR}"]),
+    ("self.type", "ty", W_TYPE, True),
+    ("WeightedDefuzzifier.Type.Automatic", "Op.Weighted.WType.automatic", W_TYPE, True),
+    ("WeightedDefuzzifier.Type.Tsukamoto", "Op.Weighted.WType.tsukamoto", W_TYPE, True),
+    ("self.infer_type(_0)", "(Py.W.inferType {0})", W_TYPE, False, [W_AGGR]),
+    ("_0.terms", "{0}.terms", f"List ({W_ACT})", True, [W_AGGR]),
+    ("scalar(_0)", "{0}", "X Rat", True, ["X Rat"]),
+    ("_0.grouped_terms().values()", "(Op.Weighted.groupedTerms {0}.aggregation {0}.terms)", f"List ({W_ACT})", True, [W_AGGR]),
+    ("_0.__getattribute__(_1)(_2)", "(Py.W.callMethod {0} {1} {2})", "X Rat", False, [W_TERM, "String", "X Rat"]),
+    ("np.where(_0, _1, _2)", "(X.sel {0} {1} {2})", "X Rat", True, ["Bool", "X Rat", "X Rat"]),
+    ("_0.squeeze()", "{0}", "X Rat", True, ["X Rat"]),
+] + W_COMMON_EXT
+
+
+def wdefuzz(cls):
+    return {"name": f"{cls}_defuzzify", "module": "fuzzylite.defuzzifier", "object": f"{cls}.defuzzify", "file": "CodeWeighted",
+            "params": [("ty", W_TYPE), ("term", f"Option {W_AGGR}")],
+            "locals": {"fuzzy_output": f"Option {W_AGGR}", "this_type": W_TYPE, "weighted_sum": "X Rat", "weights": "X Rat",
+                       "membership": "String", "activated": W_ACT, "w": "X Rat", "z": "X Rat", "y": "X Rat"},
+            "ret": "X Rat", "externals": DEFUZZ_EXT}
+
+
+W_PROFILES = [
+    {
+        "name": "Aggregated_grouped_terms", "module": "fuzzylite.term", "object": "Aggregated.grouped_terms", "file": "CodeWeighted",
+        "params": [("agg", f"Option ({W_NORM})"), ("terms", f"List ({W_ACT})")],
+        "locals": {"aggregation": W_NORM, "groups": W_DICT, "activated": W_ACT, "aggregated_term": "String"},
+        "ret": W_DICT, "externals": GROUPED_EXT, "stmt_externals": GROUPED_STMT,
+    },
+    wdefuzz("WeightedAverage"),
+    wdefuzz("WeightedSum"),
+]
+# ---- Aggregated.grouped_terms, WeightedAverage.defuzzify, WeightedSum.defuzzify (C10): end
 
 PROFILES = [
     {
@@ -226,7 +319,7 @@ PROFILES = [
     READY_PROFILE,
     CASCADE_PROFILE,
     PROCESS_PROFILE,
-]
+] + CONS_PROFILES + W_PROFILES
 
 FILES = {
     "CodeRule": {"imports": ["FlVerif.Op.PyExt"]},
@@ -236,4 +329,6 @@ FILES = {
     "CodeReady": {"imports": ["FlVerif.Op.PyExtReady"]},
     "CodeCascade": {"imports": ["FlVerif.Op.PyExtCascade"]},
     "CodeEngine": {"imports": ["FlVerif.Op.PyExtEngine"]},
+    "CodeConsequent": {"imports": ["FlVerif.Op.PyExtCons"]},
+    "CodeWeighted": {"imports": ["FlVerif.Op.PyExtWeighted"]},
 }
